@@ -36,6 +36,12 @@ def gen_case(rng):
     ev = []
     vrfs = {}
     orig = {"v1": set(), "v2": set()}
+    ce = rng.random() < 0.5
+    if ce:
+        # a CE peer attached to v1 from the start (the VRF cannot be deleted while a peer uses it)
+        vrfs["v1"] = (rtset(rng, 0.05), rtset(rng, 0.05))
+        ev.append(("addvrf", "v1", vrfs["v1"][0], vrfs["v1"][1]))
+        ev.append(("ce",))
     for _ in range(rng.choice([8, 14, 22, 32])):
         r = rng.random()
         if r < 0.28:
@@ -61,6 +67,8 @@ def gen_case(rng):
             ev.append(("rtm", p, "w", asn, rt))
         elif r < 0.82:
             v = rng.choice(["v1", "v2"])
+            if v == "v1" and ce:
+                v = "v2"
             if v in vrfs:
                 ev.append(("delvrf", v, sorted(orig[v])))
                 del vrfs[v]
@@ -81,7 +89,7 @@ def gen_case(rng):
         else:
             ev.append(("obs",))
     ev.append(("obs",))
-    return {"events": ev}
+    return {"events": ev, "ce": ce}
 
 
 def sim_line(c):
@@ -98,6 +106,9 @@ def sim_line(c):
             steps.append("(addvrf %s %s (%s) (%s))" % (e[1], VRFS[e[1]], " ".join(e[2]), " ".join(e[3])))
         elif k == "delvrf":
             steps.append("(delvrf %s)" % e[1])
+        elif k == "ce":
+            steps.append("(addpeer (e 10.0.0.5 65005 vrf=v1))")
+            steps.append("(up e)")
         elif k in ("vrfadd", "vrfdel"):
             steps.append("(%s %s %s)" % (k, e[1], e[2]))
         elif k == "obs":
@@ -156,6 +167,9 @@ def canon_impl(c, out):
                 if it[2] != "established":
                     return None
                 view = [f for f in it[3:] if f[0] == "view"][0]
+                if it[1] == "e":
+                    d["ce"] = sorted(e[0].split("#")[0] for e in view[1:])
+                    continue
                 ks = sorted(KIDX[KEYSTR[e[0].split("#")[0]]] for e in view[1:] if e[0].split("#")[0] in KEYSTR)
                 d["held"][it[1]] = ks
             elif it[0] == "vrib":
@@ -185,6 +199,9 @@ def canon_model(c, out):
             elif it[0] == "table":
                 for e in it[1:]:
                     d["table"][e[0]] = sorted(RTS[int(x) - 1] for x in e[1])
+        if c.get("ce") and "v1" in d["vrf"]:
+            # what the VRF's attached peer holds: the prefixes of the VRF's view (the model's vrf_view)
+            d["ce"] = sorted(x[0] for x in d["vrf"]["v1"])
         res.append(d)
     return res
 
@@ -247,6 +264,10 @@ def oracle(c, out):
                     return ("rtc-peer-holds-unwanted-route", "%s holds %s without a membership for any of its targets (memberships %s)" % (p, [KEYS[x - 1] for x in extra], sorted(mem.get(p, []))))
                 if missing:
                     return ("rtc-peer-lacks-wanted-route", "%s lacks %s although it has a membership for one of its targets (memberships %s)" % (p, [KEYS[x - 1] for x in missing], sorted(mem.get(p, []))))
+            if c.get("ce") and "v1" in vrfs:
+                want = sorted(key[1] for key, (src, rts) in routes.items() if rts & vrfs["v1"][0])
+                if o.get("ce", []) != want:
+                    return ("vrf-peer-view-differs", "the peer attached to VRF v1 (import %s) holds %s, the matching VPN routes have prefixes %s" % (sorted(vrfs["v1"][0]), o.get("ce"), want))
             for v, (imp, exp) in vrfs.items():
                 want = sorted([key[1], "local" if src is None else dict((n, a) for n, a, _, _ in PEERS)[src]] for key, (src, rts) in routes.items() if rts & imp)
                 have = o["vrf"].get(v, [])
@@ -263,9 +284,9 @@ def oracle(c, out):
 def shrink_candidates(c):
     ev = c["events"]
     for i in range(len(ev) - 1):
-        if ev[i][0] in ("addvrf", "delvrf"):
+        if ev[i][0] in ("addvrf", "delvrf", "ce"):
             continue                              # keeps the bookkeeping of originated routes in the events valid
-        yield {"events": ev[:i] + ev[i + 1:]}
+        yield {"events": ev[:i] + ev[i + 1:], "ce": c.get("ce")}
 
 
 def run(ctx):
@@ -293,7 +314,7 @@ def run(ctx):
         "trusted_base": core.TRUSTED_COMMON + ["go/overlay/internal/verif/sim (synctest), Python restatement of the property in checks/c17.py"],
     })
     return ctx.finish(pc, ["one source per VPN key (no best-path competition inside a VRF or between RDs); IPv4 VPN only (EVPN is NOT covered)",
-                           "peers attached to a VRF (CE peers receiving plain routes) are NOT exercised: the VRF view is read through ListPath(vrf)",
+                           "the peer attached to a VRF only receives plain routes (it announces nothing); its view is compared with the model's vrf_view",
                            "the RTC End-of-RIB deferral and memberships learned before it, ADD-PATH identifiers on memberships, and import policy on memberships are NOT covered",
                            "one event at a time (no concurrency)"])
 
